@@ -100,6 +100,17 @@ def gen_case(rng, obs, tier):
             tops.append(["succ", rng.choice(vs)])
         else:
             tops.append(["new"])
+    # 3-opt needs one cycle with at least three vehicles: gather all vehicles in cycle 0, then reorder with admissible
+    # index triples (the random triples above are almost never admissible)
+    if len(vs) >= 3 and rng.random() < 0.7:
+        tops.append(["new"])
+        for v in vs:
+            tops.append(["move", v, 0])
+        for _ in range(rng.choice([2, 3, 4])):
+            i, j, k = sorted(rng.sample(range(len(vs)), 3))
+            tops.append(["threeopt", 0, i, j, k])
+            if rng.random() < 0.3:
+                tops.append(["update", rng.choice(vs), "red", rng.choice(obs.edepots)])
     return {"ty": ty, "paths": paths, "tops": tops}
 
 
